@@ -821,11 +821,9 @@ fn judge(model: &mut Model, h: &[Op]) -> Verdict {
             }
             // after a dangling index exists (F10) the behaviour depends on which slot petgraph
             // reuses, i.e. on HashMap iteration order: not a function of the history
-            let alloc_dependent = m.hits.iter().any(|r| {
-                r.strip_prefix("F10@").and_then(|k| k.parse::<usize>().ok()).map_or(false, |k| {
-                    h.iter().skip(k + 1).any(|o| matches!(o, Op::Add(..)))
-                })
-            });
+            // (a freed slot can only be reused by `insert_source`, i.e. when the history creates files)
+            let alloc_dependent =
+                m.hits.iter().any(|r| r.starts_with("F10@")) && h.iter().any(|o| matches!(o, Op::Add(..)));
             if alloc_dependent {
                 return Verdict { oracle, correspondence: corr, region: m.region, processed, skipped: true };
             }
